@@ -498,8 +498,46 @@ class IPPOCollect(Case):
         return obs
 
 
+class Minibatch(Case):
+    """get_experiences_samples: minibatch row k of EVERY experience (tensor, dict, tuple) is row idx[k] of that experience"""
+    functions = (au.get_experiences_samples,)
+    site = "get_experiences_samples"
+
+    def __init__(self, n, k):
+        self.n, self.k = n, k
+        self.name = f"minibatch-rows{n}-pick{k}"
+        self.bounds = {"rows": n, "minibatch": k, "symbolic": "all row contents, the (pairwise distinct) indices drawn"}
+
+    def run(self, v):
+        n, k = self.n, self.k
+        st = {"k0": v.tensor("s0", (n, 2)), "k1": v.tensor("s1", (n, 1))}
+        tp = (v.tensor("t0", (n, 1)), v.tensor("t1", (n, 2)))
+        cols = [v.tensor(f"c{j}", (n,)) for j in range(3)]
+        idx = v.array("idx", (k,), "int")
+        for i in range(k):
+            v.assume(conj(idx[i] >= 0, idx[i] < n))
+            for j in range(i):
+                v.assume(neg(eq(idx[i], idx[j])))
+        if v.mode == "real":
+            idx = idx.astype(np.int64)
+        out = au.get_experiences_samples(idx, st, tp, *cols)
+        obs = [Ob("one-output-per-experience", len(out) == 5 and isinstance(out[0], dict) and isinstance(out[1], tuple))]
+
+        def pick(t, r):
+            rows = [elems(t[i]) for i in range(n)]
+            cur = rows[0]
+            for i in range(1, n):
+                cur = [ite(eq(idx[r], i), a, b) if isinstance(idx[r], Sym) else (a if idx[r] == i else b) for a, b in zip(rows[i], cur)]
+            return cur
+        from symx.core import Sym
+        for r in range(k):
+            parts = [(out[0]["k0"], st["k0"]), (out[0]["k1"], st["k1"]), (out[1][0], tp[0]), (out[1][1], tp[1])] + [(out[2 + j], cols[j]) for j in range(3)]
+            obs.append(Ob(f"minibatch-row{r}-is-row-idx[{r}]-of-every-experience", conj(*[all_eq(elems(o[r]), pick(t, r)) for o, t in parts])))
+        return obs
+
+
 def cases(tier):
-    cs = [PPOGae(3, 2), PPOGae(2, 1), PPOGae(3, 1, vectorized=False), PPOGae(1, 2),
+    cs = [Minibatch(3, 2), Minibatch(4, 4), PPOGae(3, 2), PPOGae(2, 1), PPOGae(3, 1, vectorized=False), PPOGae(1, 2),
           IPPOGae(2, 2, 2), IPPOGae(2, 2, 1), IPPOGae(1, 2, 2), IPPOGae(2, 1, 2),
           IPPOGae(2, 2, 2, obs="tuple"), IPPOGae(2, 2, 2, obs="dict"), PPOGae(2, 2, obs="tuple"), PPOGae(2, 2, obs="dict"),
           PPOCollect(2, 2), PPOCollect(3, 1), IPPOCollect(2, 1, 2), IPPOCollect(1, 2, 2)]
